@@ -44,6 +44,7 @@ func assetKinds() map[string]asset {
 		"slash":    {"http://other.example/", nil},
 		"flaky":    {H + "/flaky.png", []Node{{URL: H + "/flaky.png", Kind: "flaky", FailN: 1}}},
 		"429":      {H + "/limited.png", []Node{{URL: H + "/limited.png", Kind: "status", Code: 429}}},
+		"cut":      {H + "/cut.png", []Node{{URL: H + "/cut.png", Kind: "cut"}}},
 	}
 }
 
@@ -76,7 +77,7 @@ func MkSite(name, seedKind string, assets []string) SiteDef {
 // sweep: every seed kind x every multiset of <=2 asset kinds (assets only matter for seeds that reach the page).
 func SweepSites(tier string) []SiteDef {
 	var out []SiteDef
-	akeys := []string{"bin", "samepage", "js", "exhost", "404", "500", "redir", "redirB", "redirEx", "m3u8", "slash", "flaky", "429"}
+	akeys := []string{"bin", "samepage", "js", "exhost", "404", "500", "redir", "redirB", "redirEx", "m3u8", "slash", "flaky", "429", "cut"}
 	for _, sk := range []string{"404", "500", "nodot", "excluded"} {
 		out = append(out, MkSite("seed="+sk, sk, nil))
 	}
